@@ -105,6 +105,10 @@ class C04Runner(LineRunner):
         line = self.sc["lines"][st.line_no]
         cls = "leak_to_later_command" if line.get("probe") else "fd_target_mismatch"
         self.check_wiring(st, cls)
+        extra = sorted(fd for fd in st.pup.fds if fd > 2)
+        if extra and not line.get("probe"):
+            raise Violation("fd_target_mismatch", "%s was started with descriptors beyond the named ones: %s (%s)" % (
+                st.label(), extra, ", ".join(self.short(st.pup.fds[fd]["link"]) for fd in extra)))
         if st.hs is not None:
             self.sim.probe("here_string_reader_started")
         if line.get("probe"):
@@ -313,7 +317,11 @@ def explicit_cases():
     for text, redirs in (("alias", [dup12, out_r(2, "f1")]), ("alias", [out_r(2, "f1"), dup12]),
                          ("alias", [out_r(1, "f1"), dup21]), ("alias", [dup21, out_r(1, "f1")]),
                          ("cd /nonexistent_zz", [dup21, out_r(1, "f2")]), ("cd /nonexistent_zz", [out_r(1, "f2"), dup21]),
-                         ("cd /nonexistent_zz", [out_r(2, "f2"), dup12]), ("cd /nonexistent_zz", [dup12, out_r(2, "f2")])):
+                         ("cd /nonexistent_zz", [out_r(2, "f2"), dup12]), ("cd /nonexistent_zz", [dup12, out_r(2, "f2")]),
+                         # an unopenable target after a dup form, and after a good target
+                         ("alias", [dup21, out_r(1, "nodir/x")]), ("alias", [dup12, out_r(2, "d0")]),
+                         ("alias", [out_r(1, "f1"), dup21, out_r(2, "nodir/y")]),
+                         ("cd /nonexistent_zz", [dup21, out_r(2, "f0/x")])):
         sc = {"prop": "C04", "lines": [dict(l) for l in learn] + [
             {"stages": [{"kind": "builtin", "text": text, "redirs": [dict(r) for r in redirs]}], "probe": False}, dict(probe)],
             "externals": [], "faults": {}, "files": {"in0": "input zero\n", "in1": "x", "f1": "old-f1", "f2": "old-f2"},
